@@ -51,7 +51,8 @@ type exitMsg struct {
 	panicked any
 }
 
-// runStreamCase: events  s<f>:<0|1> | r<payload> | e | x ; a final x is always part of the case.
+// runStreamCase: events  s<f>:<0|1> | r<payload> | e | x | c<f> ; a final x is always part of the case.
+// c<f>: the context passed to Send for request f is cancelled (per-request timeout) while the request is pending.
 func runStreamCase(events []string) string {
 	ctx, cancel := context.WithCancel(context.Background())
 	defer cancel()
@@ -77,6 +78,34 @@ func runStreamCase(events []string) string {
 		return timeout("start")
 	}
 	var sent []int
+	got := map[int][]string{}
+	cancels := map[int]context.CancelFunc{}
+	record := func(r sres) {
+		var s string
+		switch {
+		case r.err == nil:
+			s = fmt.Sprintf("ok%d", payload[r.r])
+		case errors.Is(r.err, errSendFailed):
+			s = "errsend"
+		case errors.Is(r.err, io.EOF):
+			s = "eof"
+		case errors.Is(r.err, context.Canceled):
+			s = "errctx"
+		default:
+			s = "err?" + r.err.Error()
+		}
+		got[r.f] = append(got[r.f], s)
+	}
+	collect := func() {
+		for {
+			select {
+			case r := <-results:
+				record(r)
+			default:
+				return
+			}
+		}
+	}
 	for _, ev := range events {
 		if panicked {
 			break
@@ -91,8 +120,11 @@ func runStreamCase(events []string) string {
 			} else {
 				fs.sendRes <- errSendFailed
 			}
+			sctx, scancel := context.WithCancel(context.Background())
+			cancels[id] = scancel
+			defer scancel()
 			go func() {
-				r, err := sw.Send(context.Background(), &proto.WriteRequest{})
+				r, err := sw.Send(sctx, &proto.WriteRequest{})
 				results <- sres{id, r, err}
 			}()
 			select {
@@ -144,6 +176,24 @@ func runStreamCase(events []string) string {
 				expiredWaits.Add(1)
 				return timeout("recv")
 			}
+		case 'c':
+			id, _ := strconv.Atoi(ev[1:])
+			cancel1, known := cancels[id]
+			collect()
+			if !known || len(got[id]) > 0 {
+				continue // never sent, or its Send has returned already
+			}
+			cancel1()
+			// Send(id) returns now (with the context error, or with what it had already been given)
+			for len(got[id]) == 0 {
+				select {
+				case r := <-results:
+					record(r)
+				case <-expired():
+					expiredWaits.Add(1)
+					return timeout("cancel")
+				}
+			}
 		case 'x':
 			if closedDone {
 				continue
@@ -182,25 +232,23 @@ func runStreamCase(events []string) string {
 	if panicked {
 		return "PANIC"
 	}
-	got := map[int][]string{}
+	collect()
 	deadline := expired()
-	for i := 0; i < len(sent); i++ {
+	for n := 0; n < len(sent); n++ {
+		have := 0
+		for _, f := range sent {
+			if len(got[f]) > 0 {
+				have++
+			}
+		}
+		if have == len(sent) {
+			break
+		}
 		select {
 		case r := <-results:
-			var s string
-			switch {
-			case r.err == nil:
-				s = fmt.Sprintf("ok%d", payload[r.r])
-			case errors.Is(r.err, errSendFailed):
-				s = "errsend"
-			case errors.Is(r.err, io.EOF):
-				s = "eof"
-			default:
-				s = "err?" + r.err.Error()
-			}
-			got[r.f] = append(got[r.f], s)
+			record(r)
 		case <-deadline:
-			i = len(sent)
+			n = len(sent)
 		}
 	}
 	sort.Ints(sent)
@@ -251,7 +299,7 @@ func checkStreamSpec(o *hxOut, events []string, result string, line string) {
 	for i, f := range oks {
 		r := res[f]
 		if strings.HasPrefix(r, "ok") && (i >= len(recvs) || r != "ok"+recvs[i]) {
-			o.Violation("stream:response-matched-to-wrong-request", line+" => "+result)
+			o.Violation("stream:response-of-another-request", line+" => "+result)
 			return
 		}
 	}
